@@ -11,4 +11,19 @@ CLAIMED = {
  "C04": {"category": "other", "text": "Placement-domain analysis: " + STRUCT % "C04" + ". Rules: grid-kind x method coverage (placed or rejected), placement sites with skip conditions evaluated as truth tables, evaluator/index/expression pass-through, IndexError-only drop discipline, shift semantics of next/prev/offset instantiated over nodes x offsets, before/after complementarity, subject_to classification, inventory of every NLP constraint site, store-once/replay-once in OptiWrapper, slot tables of the four evaluators.",
          "note": NOTE, "technique": "loop-context + slot-table extraction, truth tables of extracted guards, constraint-site inventory (ast)"},
 }
+
+def _e(pid, tech, rules):
+    return {"category": "other", "text": tech.split(";")[0].capitalize() + ": " + STRUCT % pid + ". Rules: " + rules, "note": NOTE, "technique": tech}
+
+CLAIMED.update({
+ "C01": _e("C01", "slot tables + reaching definitions + exact tableau algebra (polynomial normal form) on the ast", "sub-stepping chain in discrete_system, step-map signatures, tableau consistency (c_i = sum a_ij, absolute stage times), interval wiring of F in MS/SS, gap closing against the call of the same interval, per-interval selection, pack order of the p vector (D10 known finding)."),
+ "C02": _e("C02", "loop-context + slot-table extraction with affine normal forms (ast)", "helper-state layout, defect equation per (k,i,j) with polynomial derivative / dt_k, step-length provenance, collocation times, continuity via D for every scheme, one set of collocation tables, pack order."),
+ "C03": _e("C03", "exact rational Butcher order conditions on the extracted tableau; normal-form comparison of time rescaling (ast)", "order conditions up to 4 for rk and 1 for expl_euler (exact arithmetic), quadrature weights, unit-interval rescaling and p packing of the CasADi-integrator wrapper and of sys_simulator, integral -> quadrature state at tf. The collocation orders and integrator tolerances of the statement are numerical and not decided."),
+ "C05": _e("C05", "species/handler coverage + accumulation-shape analysis (ast)", "species x method handler coverage, handler shapes (first/last node, sum over N [+final], left interval-weighted sum), quadrature accumulation per method, objective assembly and hand-over to Opti.minimize, accumulation and invalidation in add_objective, quadrature scaled by the integrator step."),
+ "C09": _e("C09", "writer/reader table agreement over the four parameter kinds (ast)", "creation / value transfer / set_value tables agree per kind and index, N resp. N+1 columns, values transferred in phase 1 and 2, set_value write-through, pack order (D10 known finding), horizon evaluated by the common substitution."),
+ "C14": _e("C14", "normal-form and source-of-scale analysis (ast)", "scaled constraint rebuild divides lb/expr/ub by the same scale and keeps the sense (all entries infinite for one-sidedness, all constraint types), single un-scaling site, every variable/placement/dynamics constraint carries its own scale, read-back never reads scales, declaration-side scale recording."),
+ "C16": _e("C16", "positional pairing + guard dominance + slot tables (ast)", "chain-rule pairing of variables and seeds, control-dependence guard before any return, signal order guard, integrator chain of control(order=k), ODE evaluated at the identity point including time in all three forms."),
+ "C20": _e("C20", "guard catalogue with dominance + exception-handler discipline (ast)", "one raising guard per fault x site of the statement (about 40), frozen whitelist of benign handlers with reasons, unplaceable constraint kinds and unsupported inf expressions rejected."),
+})
+
 NOT_APPLICABLE = {}
